@@ -30,10 +30,16 @@ where
         })?;
 
         let is_duplicate = if id == METADATA_ID {
-            let m = read_metadata(reader).await?;
+            let m = read_metadata(reader)
+                .await
+                .map_err(|e| io::Error::new(io::ErrorKind::InvalidData, e))?;
+
             metadata.replace(m).is_some()
         } else {
-            let chunks = read_chunks(reader).await?;
+            let chunks = read_chunks(reader)
+                .await
+                .map_err(|e| io::Error::new(io::ErrorKind::InvalidData, e))?;
+
             let bin = Bin::new(chunks);
             bins.insert(id, bin).is_some()
         };
